@@ -21,7 +21,7 @@ RULE = ('Engine A: lattice of pre-test pairs (x, y): n in {4,5,6,8,12} x 5 contr
         'real code paths against each other: an experiment frame whose test-period control mean is displaced by dx = '
         'sqrt(phi (n+1) Sxx / (n n_test (n-1))) and whose treatment shows exactly lift = required impact is analysed by '
         'tbr.TBR: estimate == lift, (t_sig+t_pow)*scale == required impact, one-sided lower bound at sig_level == t_pow*scale; '
-        'same numbers from tbrfit; (3) metamorphic on every lattice point: scaling by 2^k scales RI by 2^k, level shifts leave it '
+        'same numbers from tbrfit; (3) metamorphic on every lattice point: scaling by 2^k (k = -40 ... 40) scales RI by 2^k, level shifts leave it '
         'unchanged, estimate_required_impact(rho) strictly decreasing in |rho| over a grid. Non-trivial = every lattice point '
         'with positive residual variance; distinct = distinct (series, parameter) point.')
 ASSUMPTIONS = ['finite lattice of series; scipy.stats t/F quantiles trusted; comparisons at 1e-9 (1e-7 through statsmodels OLS)']
@@ -148,7 +148,7 @@ def run_case(case):
             and math.isclose(f.cihw, tq_s * scale_ref, rel_tol=1e-9)):
         add('design-side-fit', '%s: tbrfit=%r expected estimate %r scale %r' % (tag, tuple(f), RI, scale_ref))
     # metamorphic
-    for k in (-3, 1, 10):
+    for k in (-3, 1, 10, -40, 40):      # incl. responses in a tiny / huge unit (billions; micro-units)
         cc = 2.0 ** k
         d2 = TBRMMDiagnostics(cc * y, par)
         d2.x = cc * x
